@@ -104,23 +104,20 @@ theorem el_sym {s : String} (h : readableSym s = true) : El s.toList [symTok s] 
   · exact Or.inl hk
   · exact Or.inr (Or.inr ⟨c, hk⟩)
 
-theorem el_nil : El (prStr true .nil) (toksOf .nil) := by
-  have := el_of_single "nil" ⟨.ident, [110, 105, 108], 1, 4, 3⟩
+theorem el_nil : El (prStr true .nil) (toksOf .nil) :=
+  el_of_single "nil" ⟨.ident, [110, 105, 108], 1, 4, 3⟩
     (by rw [tokensOfString_eq]; decide) (by decide) (Or.inl rfl)
-  simpa [prStr, toksOf] using this
 
-theorem el_true : El (prStr true (.bool true)) (toksOf (.bool true)) := by
-  have := el_of_single "true" ⟨.ident, [116, 114, 117, 101], 1, 5, 4⟩
+theorem el_true : El (prStr true (.bool true)) (toksOf (.bool true)) :=
+  el_of_single "true" ⟨.ident, [116, 114, 117, 101], 1, 5, 4⟩
     (by rw [tokensOfString_eq]; decide) (by decide) (Or.inl rfl)
-  simpa [prStr, toksOf] using this
 
-theorem el_false : El (prStr true (.bool false)) (toksOf (.bool false)) := by
-  have := el_of_single "false" ⟨.ident, [102, 97, 108, 115, 101], 1, 6, 5⟩
+theorem el_false : El (prStr true (.bool false)) (toksOf (.bool false)) :=
+  el_of_single "false" ⟨.ident, [102, 97, 108, 115, 101], 1, 6, 5⟩
     (by rw [tokensOfString_eq]; decide) (by decide) (Or.inl rfl)
-  simpa [prStr, toksOf] using this
 
 /-- a token at a delimiter, from a scan that ends on `next (d :: S) q` -/
-theorem El.single_next {text : List Char} {k : Kind} {t : List Nat} (hne : text ≠ [])
+theorem El.single_next {text : List Char} {k : Kind} {t : List Nat} (hne : HeadOk text)
     (h : ∀ (d : Rune) (S : List Rune) (p : PState), IsDelim d → p.errs = 0 → ∃ q,
       (∀ F : Nat, scan (F + 1) (next (runesOf text ++ d :: S) p).2.1 (next (runesOf text ++ d :: S) p).1
         (next (runesOf text ++ d :: S) p).2.2 = (some (k, t), next (d :: S) q)) ∧ q.errs = 0) :
@@ -131,12 +128,110 @@ theorem El.single_next {text : List Char} {k : Kind} {t : List Nat} (hne : text 
   exact ⟨q', fun F => by rw [hq F, hq'], by rw [he', he]⟩
 
 theorem el_int (i : Int) : El (prStr true (.int i)) (toksOf (.int i)) := by
-  simp only [prStr, toksOf]
+  show El (intStr i) [(.int, (intStr i).map Char.toNat)]
   refine El.single_next ?_ (fun d S p hd hp => scan_int i (Or.inr ⟨d, S, rfl, hd⟩) p hp)
   cases i with
   | ofNat n =>
-    obtain ⟨c, r, hcr, _⟩ := natDigits_spec (n + 1) n (by omega)
-    simp [intStr, hcr]
-  | negSucc n => simp [intStr]
+    obtain ⟨c, r, hcr, hc, _⟩ := natDigits_spec (n + 1) n (by omega)
+    exact ⟨c, r, by simp [intStr, hcr], by obtain ⟨a, b⟩ := hc; omega⟩
+  | negSucc n => exact ⟨'-', _, rfl, by decide⟩
+
+/-! ### strings and keywords -/
+
+/-- what `readableKw` says -/
+theorem readableKw_spec {s : String} (h : readableKw s = true) :
+    ∃ name t, s.toList = kwMarker :: name ∧ tokensOfString (String.ofList (':' :: name)) = .ok [t] ∧
+      t.kind = .keyword ∧ tokStr t = String.ofList (':' :: name) := by
+  unfold readableKw at h
+  split at h
+  · rename_i c name hs
+    simp only [Bool.and_eq_true, beq_iff_eq] at h
+    obtain ⟨hc, h2⟩ := h
+    split at h2
+    · rename_i t ht
+      simp only [Bool.and_eq_true, decide_eq_true_eq, beq_iff_eq] at h2
+      exact ⟨name, t, by rw [hs, hc], ht, h2.1, h2.2⟩
+    · cases h2
+  · cases h
+
+theorem prString_kw {s : String} {name : List Char} (b : Bool) (h : s.toList = kwMarker :: name) :
+    prString b s = ':' :: name := by
+  unfold prString
+  simp only [h]
+  simp
+
+theorem isKwStr_of {s : String} {name : List Char} (h : s.toList = kwMarker :: name) : Val.isKwStr s = true := by
+  simp [Val.isKwStr, h]
+
+theorem kwTok_eq {s : String} {name : List Char} {t : Token} (h : s.toList = kwMarker :: name)
+    (ht : tokensOfString (String.ofList (':' :: name)) = .ok [t]) : kwTok s = (t.kind, t.text) := by
+  simp only [kwTok, h]
+  exact symTok_eq ht
+
+theorem el_kw {s : String} (h : readableKw s = true) : El (prString true s) [strTok s] := by
+  obtain ⟨name, t, hs, ht, hk, htx⟩ := readableKw_spec h
+  rw [prString_kw true hs]
+  have e : strTok s = (t.kind, t.text) := by
+    simp only [strTok, isKwStr_of hs, if_true]
+    exact kwTok_eq hs ht
+  rw [e]
+  have := el_of_single _ t ht htx (Or.inr (Or.inl hk))
+  rwa [String.toList_ofList] at this
+
+theorem isRawStr_iff (s : String) :
+    isRawStr s = true ↔ (['{', '"'].isPrefixOf s.toList = true ∧ s.toList.getLast? = some '}') := by
+  simp [isRawStr]
+
+theorem prString_raw {s : String} (hkw : Val.isKwStr s = false) (hraw : isRawStr s = true) :
+    prString true s = '¬' :: rawBody s.toList ++ ['¬'] := by
+  have hr := (isRawStr_iff s).mp hraw
+  unfold prString
+  unfold Val.isKwStr at hkw
+  generalize s.toList = cs at *
+  cases cs with
+  | nil => simp at hr
+  | cons c rest =>
+    have hc : ¬ c = kwMarker := by simpa using hkw
+    simp only [hc, if_false, if_true, if_pos hr]
+
+theorem el_str {s : String} (hkw : Val.isKwStr s = false) (hnul : Char.ofNat 0 ∉ s.toList) :
+    El (prString true s) [strTok s] := by
+  have e : strTok s = (if isRawStr s then .rawString else .string, (prString true s).map Char.toNat) := by
+    simp only [strTok, hkw, Bool.false_eq_true, if_false]
+  rw [e]
+  by_cases hraw : isRawStr s = true
+  · rw [if_pos hraw, prString_raw hkw hraw]
+    refine El.single_next ⟨'¬', _, rfl, by decide⟩ (fun d S p hd hp => ?_)
+    obtain ⟨p1, hp1, he1⟩ := ScanString.next_good 172 ('¬').utf8Size
+      (runesOf (rawBody s.toList ++ ['¬']) ++ d :: S) p (by decide) (by decide)
+    have hp1' : next (runesOf ('¬' :: rawBody s.toList ++ ['¬']) ++ d :: S) p =
+        ((172 : Int), runesOf (rawBody s.toList ++ ['¬']) ++ d :: S, p1) := hp1
+    rw [hp1']
+    obtain ⟨q, hq, he⟩ := scan_raw (tail := d :: S)
+      (fun d' S' h => by
+        injection h with h1 _; subst h1
+        obtain ⟨_, h | h | h | h⟩ := hd <;> rw [h] <;> decide) s.toList hnul p1
+    exact ⟨q, hq, by rw [he, he1, hp]⟩
+  · rw [if_neg hraw]
+    have hraw' : ¬ (['{', '"'].isPrefixOf s.toList = true ∧ s.toList.getLast? = some '}') :=
+      fun h => hraw ((isRawStr_iff s).mpr h)
+    rw [ScanString.prString_quoted s hkw hraw']
+    refine El.single_next ⟨'"', _, rfl, by decide⟩ (fun d S p hd hp => ?_)
+    obtain ⟨p1, hp1, he1⟩ := ScanString.next_good 34 ('"').utf8Size
+      (runesOf (RoundTrip.esc s.toList ++ ['"']) ++ d :: S) p (by decide) (by decide)
+    have hp1' : next (runesOf ('"' :: RoundTrip.esc s.toList ++ ['"']) ++ d :: S) p =
+        ((34 : Int), runesOf (RoundTrip.esc s.toList ++ ['"']) ++ d :: S, p1) := hp1
+    rw [hp1']
+    obtain ⟨q, hq, he⟩ := scan_quoted s.toList hnul (d :: S) p1 (by rw [he1, hp])
+    exact ⟨q, hq, he⟩
+
+/-- every readable string (keyword or not), printed readably and followed by a delimiter -/
+theorem el_readableStr {s : String} (h : readableStr s = true) : El (prString true s) [strTok s] := by
+  unfold readableStr at h
+  by_cases hkw : Val.isKwStr s = true
+  · rw [if_pos hkw] at h; exact el_kw h
+  · rw [if_neg hkw] at h
+    have hkw' : Val.isKwStr s = false := by simpa using hkw
+    exact el_str hkw' (by simpa using h)
 
 end LispModel.Proofs.PrintRead
